@@ -219,6 +219,16 @@ CLAIMED = {
              "Two defects repaired (RELR/RELA parity; TLS GOT entry of an undefined weak hidden symbol in a shared object — found by the model's sweep, then reproduced).",
         technique="Coq proof by reflection over a finite domain + exhaustive correspondence with allocate_resolution + link matrix against GNU ld",
         design_ref="DESIGN.md §3 C23"),
+    "C11": dict(
+        text="S1: Gallina model of assign_thunk_blocks over the contiguous contributions of the objects (two-mode loop, owners, a block sits at its owner's end) and of the adrp+add+br "
+             "thunk. Theorems: for every list of objects no larger than M (below range = branch range - slack), every object is assigned exactly one block (indices 0..n-1 once each) and "
+             "every byte of it is closer than range + M + block size to every thunk of that block — within reach whenever M + block size <= slack; the thunk template reaches its target from "
+             "any position. Refuted for an object larger than the slack (model witness; reproduced as a real out-of-range link failure and recorded). Which relocations get a thunk "
+             "(provably_in_range, non-primary references) and PLT/IFUNC targets are checked end to end only.",
+        note="Trusted: the restated algorithm is tied to the compiled assign_thunk_blocks through a guarded hook on random size lists; end to end, clang-assembled AArch64 objects with > 128 MiB of "
+             "padding are linked by wild and every generated b/bl is decoded and followed through its thunk to the intended symbol (static analysis: no AArch64 emulator here).",
+        technique="Coq proof (loop invariant over the two-mode assignment) + model/implementation correspondence through a hook + static control-flow analysis of real AArch64 links",
+        design_ref="DESIGN.md §3 C11"),
     "C37": dict(
         text="S1 on top of C03: DT_NEEDED = the shared libraries in the verified loaded set, in command-line order. Theorems: listed iff loaded shared library; every --no-as-needed library listed; "
              "an --as-needed library listed only if some loaded file non-weakly references a name whose first definition it is; strictly increasing command-line positions (each at most once).",
